@@ -72,6 +72,9 @@ func AddYAMLStyles(t *rapid.T, m *Model) {
 			weights = []string{StylePlain, StylePlain, StyleSingle, StyleSingle, StyleDouble, StyleLiteral, StyleLiteral, StyleFolded}
 		}
 		st := ScalarStyle{Style: pickU(t, l+".style", weights)}
+		if st.Style == StylePlain && (yamlPlainDiffers(strings.ReplaceAll(s.Value, "\n", " ")) || strings.HasSuffix(s.Value, "\n")) && g.chance(l+".style.plain->single", 90) {
+			st.Style = StyleSingle // plain cannot say it (nine in ten of those are written quoted)
+		}
 		st.Indent = pickU(t, l+".indent", []int{1, 2, 2, 2, 2, 3, 4, 4, 6, 8})
 		switch st.Style {
 		case StyleLiteral, StyleFolded:
